@@ -133,3 +133,97 @@ func VP_C05_count_pb() {
 		func(a int) bool { return vpRefsHold(refs, a) },
 		func(m []bool) bool { return vpRefsHoldM(refs, m) })
 }
+
+// VP_C05_count_skeleton: counting and enumeration on fixed skeletons over 4-6
+// variables with symbolic signs (models with several decisions, blocking
+// clauses of 3 and more literals, backjumps in the middle of them).
+func VP_C05_count_skeleton() {
+	zzvp.IntMode(true)
+	var sk [][]int
+	nsk := zzvp.Param("nskel", len(vpCDCLSkeletons)+2)
+	k := zzvp.Choose("skeleton", nsk)
+	switch {
+	case k < len(vpCDCLSkeletons):
+		sk = vpCDCLSkeletons[k]
+	case k == len(vpCDCLSkeletons):
+		sk = vpRandom3SAT(6, 5, zzvp.Param("seed", 0)+1)
+	default:
+		sk = vpRandom3SAT(6, 7, zzvp.Param("seed", 0)+2)
+	}
+	maxSym := zzvp.Param("maxsigns", 8)
+	n, cnt := 0, 0
+	var orig [][]int
+	for _, c := range sk {
+		b := make([]int, len(c))
+		for i, l := range c {
+			if v := vpAbs(l); v > n {
+				n = v
+			}
+			b[i] = l
+			if cnt < maxSym {
+				b[i] = zzvp.Concretize(zzvp.Ite(zzvp.Bool("flip"), -l, l))
+				cnt++
+			}
+		}
+		orig = append(orig, b)
+	}
+	mk := func() *Problem {
+		c := make([][]int, len(orig))
+		for i := range orig {
+			c[i] = vpCopy(orig[i])
+		}
+		return ParseSliceNb(c, n)
+	}
+	want := 0
+	for a := 0; a < 1<<uint(n); a++ {
+		all := true
+		for _, cl := range orig {
+			ok := false
+			for _, l := range cl {
+				if ((a>>uint(vpAbs(l)-1))&1 == 1) == (l > 0) {
+					ok = true
+				}
+			}
+			if !ok {
+				all = false
+				break
+			}
+		}
+		if all {
+			want++
+		}
+	}
+	c1 := New(mk()).CountModels()
+	zzvp.Assert(c1 == want, "CountModels differs from the number of satisfying assignments")
+	s3 := New(mk())
+	ch := make(chan []bool, 1<<uint(n)+1)
+	c3 := s3.Enumerate(ch, nil)
+	zzvp.Assert(c3 == want, "Enumerate(ch) differs from the number of satisfying assignments")
+	seen := map[int]bool{}
+	for len(ch) > 0 {
+		m := <-ch
+		a := 0
+		for i, b := range m {
+			if b {
+				a |= 1 << uint(i)
+			}
+		}
+		zzvp.Assert(!seen[a], "a model was delivered twice")
+		seen[a] = true
+		for _, cl := range orig {
+			ok := false
+			for _, l := range cl {
+				if m[vpAbs(l)-1] == (l > 0) {
+					ok = true
+				}
+			}
+			zzvp.Assert(ok, "a delivered model violates a clause")
+		}
+	}
+	zzvp.Assert(len(seen) == want, "the set of delivered models is not the set of satisfying assignments")
+	if want == 0 {
+		zzvp.Reach("zero")
+	} else {
+		zzvp.Reach("some")
+	}
+}
